@@ -163,6 +163,21 @@ def dag(draw, *, max_nodes=12, leaf_profile='plain', kinds=None, p_alias=0.55,
       if tags and draw(st.booleans()):
         node['tags'] = [[draw(st.sampled_from(['a', 'k', 'z0', 0, 1, 2, 3])),
                          draw(st.sampled_from(['TagA', 'TagB', 'TagC', 'TagX']))]]
+    elif kind == 'AFP':
+      # a Partial with an ArgFactory argument (ArgFactory is only valid inside Partial)
+      af_fn = draw(st.sampled_from(['things:make_list', 'things:make_rec', 'things:ident']))
+      af_kw = {}
+      if af_fn == 'things:make_rec' and draw(st.booleans()):
+        af_kw['tag'] = ref()
+      elif af_fn == 'things:ident' and draw(st.booleans()):
+        af_kw['x'] = ref()
+      nodes.append({'k': 'B', 'bt': 'ArgFactory', 'fn': {'kind': 'sym', 'name': af_fn}, 'pos': [], 'kw': af_kw, 'edits': []})
+      af = len(nodes) - 1
+      kw = {'x': {'leaf': f'uid{uid_counter}'}, 'y': af}
+      uid_counter += 1
+      if draw(st.booleans()):
+        kw['child'] = ref()
+      node = {'k': 'B', 'bt': 'Partial', 'fn': {'kind': 'sym', 'name': 'things:f2'}, 'pos': [], 'kw': kw, 'edits': []}
     elif kind == 'Bmut1':
       # explicit value equal to the (single) mutable default; often aliased by a sibling
       prev = [j for j, nd in enumerate(nodes) if nd['k'] == 'list' and nd.get('_eqdef')]
